@@ -95,7 +95,8 @@ class C03(Check):
             out.nontrivial = True
         with Monitor() as mon:
             snap = progs.run_mux(prog, items, prelude=case.get('prelude'))
-        prelude_tags(case, out)
+        if case.get('prelude'):
+            prelude_tags(dict(case, prelude=progs.usable_prelude(prog, case['prelude'])), out)
         for b in mon.boundaries:
             out.observed['boundaries_monitored'] += 1
             for kind, name in KINDS.items():
